@@ -35,6 +35,7 @@ struct LT
   std::string tag = "start";
   int arg = 0;
   std::string pc = "st";
+  bool timed = false;
   real_cv cond;
   real_thread real;
   bool has_real = false;
@@ -87,7 +88,7 @@ static bool enabled(const LT &t)
   case P_CVWAKE:
   {
     bool waiting = std::find(t.cv->waiters.begin(), t.cv->waiters.end(), t.id) != t.cv->waiters.end();
-    return (!waiting || S.spurious) && t.m->holder == -1;
+    return (!waiting || S.spurious || t.timed) && t.m->holder == -1;
   }
   case P_JOIN:
     return S.th[t.jt]->pend == P_FIN;
@@ -241,18 +242,33 @@ bool wv::mutex::try_lock()
 #undef mutex
 static wv::wv_mutex *mutex_of(std::unique_lock<wv::wv_mutex> &lk) { return lk.mutex(); }
 #pragma pop_macro("mutex")
-void wv::condition_variable::wait(std::unique_lock<wv::mutex> &lk)
+static bool wait_impl(wv::condition_variable *cv, std::unique_lock<wv::mutex> &lk, bool timed);
+void wv::condition_variable::wait(std::unique_lock<wv::mutex> &lk) { wait_impl(this, lk, false); }
+std::cv_status wv::condition_variable::wait_timed(std::unique_lock<wv::mutex> &lk)
 {
+  return wait_impl(this, lk, true) ? std::cv_status::timeout : std::cv_status::no_timeout;
+}
+// returns true when the wait ended without a notification (time-out / spurious)
+static bool wait_impl(wv::condition_variable *cvp, std::unique_lock<wv::mutex> &lk, bool timed)
+{
+  std::vector<int> &waiters = cvp->waiters;
   if (!S.active)
-    return;
+    return timed;
   LT &me = self();
   wv::mutex *m = mutex_of(lk);
+  // scheduling point on entry, with the mutex still held: between the caller's predicate test and
+  // the atomic release-and-enqueue of the wait.  A notifier that holds the mutex cannot run here;
+  // one that does not can - which is how a lost wake-up becomes visible.
+  me.pend = P_PLAIN;
+  me.tag = "prewait";
+  yield_here(me);
   m->holder = -1;
   if (std::find(waiters.begin(), waiters.end(), me.id) == waiters.end())
     waiters.push_back(me.id);
   me.pend = P_CVWAKE;
   me.m = m;
-  me.cv = this;
+  me.cv = cvp;
+  me.timed = timed;
   try
   {
     yield_here(me);
@@ -263,8 +279,11 @@ void wv::condition_variable::wait(std::unique_lock<wv::mutex> &lk)
     m->holder = me.id; // unique_lock believes it owns the mutex and will unlock it while unwinding
     throw;
   }
+  bool unnotified = std::find(waiters.begin(), waiters.end(), me.id) != waiters.end();
   waiters.erase(std::remove(waiters.begin(), waiters.end(), me.id), waiters.end());
   m->holder = me.id;
+  me.timed = false;
+  return unnotified;
 }
 void wv::condition_variable::notify_all() noexcept { waiters.clear(); }
 void wv::condition_variable::notify_one() noexcept
@@ -322,10 +341,12 @@ void wv::thread::join()
   S.joins_done++;
   lid = -1;
 }
+static std::set<std::string> g_tags_seen;
 static void point_hook(const char *tag, int arg)
 {
   if (!S.active)
     return;
+  g_tags_seen.insert(tag);
   LT &me = self();
   me.pend = P_PLAIN;
   me.tag = tag;
@@ -490,6 +511,8 @@ static void update_pc(LT &me)
                                                                                                       : "lock?" + prev;
     else if (me.pend == P_CVWAKE)
       pc = "wuw";
+    else if (me.tag == "prewait")
+      pc = "wup";
     else if (me.tag == "begin" || me.tag == "spawned")
       pc = "sp";
     else if (me.tag == "wu")
@@ -515,8 +538,11 @@ static void update_pc(LT &me)
                              : prev == "su1"  ? "wr0"
                                               : "lock?" + prev;
     else if (me.pend == P_CVWAKE)
-      pc = (prev == "g1" || prev == "gw") ? "gw" : (prev == "wr1" || prev == "wrw") ? "wrw"
-                                                                                     : "wait?" + prev;
+      pc = prev == "gp" ? "gw" : prev == "wrp" ? "wrw"
+                                               : "wait?" + prev;
+    else if (me.tag == "prewait")
+      pc = (prev == "g1" || prev == "gw") ? "gp" : (prev == "wr1" || prev == "wrw") ? "wrp"
+                                                                                     : "prewait?" + prev;
     else if (me.tag == "wr")
       pc = prev == "g0" ? "g1" : prev == "wr0" ? "wr1"
                                                : "wr?" + prev;
@@ -747,6 +773,12 @@ int main(int argc, char **argv)
       }
     }
     write_graph(outp);
+    {
+      std::string tg;
+      for (auto &t : g_tags_seen)
+        tg += (tg.empty() ? "" : " ") + t;
+      printf("{\"e\":\"tags\",\"seen\":\"%s\"}\n", tg.c_str());
+    }
     printf("{\"e\":\"explored\",\"T\":%d,\"dir\":\"%s\",\"n\":%d,\"S\":%u,\"spurious\":%d,\"states\":%zu,\"edges\":%zu,\"runs\":%ld,\"steps\":%ld,\"deadlock_runs\":%ld,\"truncated\":%d}\n",
            g_T, argv[3], g_n, iobuffer::sum, (int)S.spurious, g_states.size(), g_edges.size(), runs, total_steps, deadlock_runs, (int)truncated);
     return 0;
